@@ -305,7 +305,7 @@ fn main() {
     let n_syn = (space + SYN_CH - 1) / SYN_CH;
     let days = rule_days();
     let nd = days.len() as u64;
-    let stds: Vec<i32> = if tier == Tier::Thorough { vec![-43200, -18000, -3723, 0, 3600, 3723, 19800, 43200] } else { vec![-18000, 3723, 0, 19800] };
+    let stds: Vec<i32> = if tier == Tier::Thorough { vec![-43200, -18000, -3723, -1172, 0, 1172, 3600, 3723, 19800, 43200] } else { vec![-18000, 3723, 1172, 0, 19800] };
     let deltas: Vec<i32> = if tier == Tier::Thorough { vec![3600, 1800, 7200, -3600] } else { vec![3600, -3600] };
     let times: Vec<(i32, i32)> = if tier == Tier::Thorough { vec![(7200, 7200), (0, 0), (5400, 10800), (86400, 3600), (10800, 86400)] } else { vec![(7200, 7200), (0, 86400)] };
     let probe_years: Vec<i64> = vec![1900, 1999, 2000, 2023, 2024, 2026, 2037, 2100, 9999];
